@@ -617,7 +617,7 @@ def build_plan(states, path, mode: str, variety: int) -> dict:
             'exprs': {fid: fi.get('expr') for fid, fi in finfo.items() if not fi['child']}}
 
 
-def _driver(world: World, tid: int, cmdq: queue.Queue) -> None:
+def _driver(world: World, tid: int, cmdq: queue.Queue, sels: dict) -> None:
     world.register(tid)
     gate = world.gate
     post = gate.posts[tid].put
@@ -640,7 +640,7 @@ def _driver(world: World, tid: int, cmdq: queue.Queue) -> None:
             try:
                 if cmd[0] == 'call':
                     _, fid, kind, expr, vars_ = cmd
-                    sel = selector(expr)
+                    sel = sels[expr]
                     if kind == 'gen':
                         it = iters[fid] = sel.iter_select(root(), variables=dict(vars_))
                         step(it)
@@ -674,17 +674,24 @@ def execute_plan(plan: dict, timeout: float = 10.0) -> dict:
     gate = Gate(tids)
     installed = {names[a] for a in plan['inst']} | ({'C.utf8'} if mode == 'real' and 'L1' in plan['inst'] else set())
     world = World(mode, installed=installed, init=names[plan['lc0']], gate=gate, log=[])
-    for st in plan['steps']:            # compile outside the gated section
-        if st['cmd'] and st['cmd'][0] == 'call':
-            install(world)
-            gate.free = True
-            try:
-                selector(st['cmd'][3])
-            finally:
-                gate.free = False
+    # compile outside the gated section; the token trees live exactly as long as this replay: a cached
+    # tree can keep a suspended generator of an earlier evaluation alive, whose late close would run
+    # __exit__ against the world of a LATER replay
+    from elementpath import Selector
+    from elementpath.xpath31 import XPath31Parser
     install(world)
+    gate.free = True
+    sels: dict = {}
+    saved_cell, world.cell = world.cell, ('C' if mode == 'sim' else world.cell)
+    try:
+        for st in plan['steps']:
+            if st['cmd'] and st['cmd'][0] == 'call' and st['cmd'][3] not in sels:
+                sels[st['cmd'][3]] = Selector(st['cmd'][3], parser=XPath31Parser)
+    finally:
+        world.cell = saved_cell
+        gate.free = False
     cmdq = {t: queue.Queue() for t in tids}
-    threads = [threading.Thread(target=_driver, args=(world, t, cmdq[t]), daemon=True) for t in tids]
+    threads = [threading.Thread(target=_driver, args=(world, t, cmdq[t], sels), daemon=True) for t in tids]
     for th in threads:
         th.start()
     result: dict = {'kind': 'conform'}
@@ -767,6 +774,9 @@ def execute_plan(plan: dict, timeout: float = 10.0) -> dict:
             th.join(timeout=timeout)
         gate.free = True
         result['threads_left'] = sum(1 for th in threads if th.is_alive())
+        world.aborted.add(0)          # whatever is finalised from here on (main thread) must not act
+        sels.clear()
+        del threads
         uninstall()
     result['matched_steps'] = matched_steps
     result['events'] = len(world.log)
@@ -1900,9 +1910,8 @@ def run(chk: core.Check) -> None:
             need = set(want_acts) | ({'LeakRaise', 'YieldHolding'} if variant == 'pinned' else set())
             if 'lazy' in kw['kinds']:
                 need |= {'CallArg', 'ResumeLazy'} | ({'LeaveHolding'} if variant == 'pinned' else {'EvalArgs'})
-            if kw['threads'] == 1 or kw.get('depth', 3) >= 2 or variant == 'pinned':
-                pass
-            missing = need - seen - ({'Resume', 'Abandon', 'Yield', 'Return', 'ExitGen'} if 'gen' not in kw['kinds'] else set())
+            missing = need - seen - ({'Resume', 'Abandon', 'Yield', 'Return', 'ExitGen'} if 'gen' not in kw['kinds'] else set()) \
+                - (set() if 'cp' in kw['colls'] else {'Enter0'})
             if missing:
                 raise tla.MachineryError(f'graph-{name}-{variant}: actions never fired: {sorted(missing)} (vacuous model)')
         jobs = []
